@@ -3778,6 +3778,217 @@ def translate_file(path, ns, self_ty, want=None, private=False, ext=None, cut=No
     return [n for n, _, _, _ in fns], out, failed, sigs
 
 
+# ---- (G19) `impl_limb_convert!` expanded by macro substitution; `UnsatInt::{from_uint, to_uint}` ----------------------------
+
+_impl_blocks_g19 = impl_blocks
+MIN_SHAPE = re.compile(r'const\s+fn\s+min\s*\(\s*a\s*:\s*usize\s*,\s*b\s*:\s*usize\s*\)\s*->\s*usize\s*\{\s*if\s+a\s*>\s*b\s*\{\s*b\s*\}\s*else\s*\{\s*a\s*\}\s*\}')
+
+
+def read_limb_convert_macro():
+    """the macro `impl_limb_convert!` of src/modular/safegcd/macros.rs: (parameter names with kinds, body text without the nested
+    `const fn min`, whose text must be the expected `if a > b { b } else { a }`) — read on every run"""
+    try:
+        text = open(os.path.join(REPO, 'src/modular/safegcd/macros.rs')).read()
+    except OSError:
+        raise Unsupported('src/modular/safegcd/macros.rs not found')
+    text = re.sub(r'//[^\n]*', '', text)
+    m = re.search(r'macro_rules!\s*impl_limb_convert\s*\{\s*\(([^)]*)\)\s*=>\s*\{\{', text)
+    if not m:
+        raise Unsupported('macro impl_limb_convert! not found / another shape')
+    params = re.findall(r'\$(\w+)\s*:\s*(\w+)', m.group(1))
+    end = _balanced_end(text, m.end())
+    body = text[m.end():end - 1]
+    mm = MIN_SHAPE.search(body)
+    if not mm:
+        raise Unsupported('the nested `const fn min` of impl_limb_convert! changed')
+    body = body[:mm.start()] + body[mm.end():]
+    if 'fn ' in body:
+        raise Unsupported('impl_limb_convert!: nested items')
+    return params, body
+
+
+def expand_limb_convert(src):
+    """every `impl_limb_convert!(a, b, c, d, e, f);` of `src` replaced by the macro body with `$name` substituted (an `expr`
+    argument in parentheses, as the macro expander does; a `ty` argument as it stands; `<T>::X` is `T::X`)"""
+    while True:
+        m = re.search(r'\bimpl_limb_convert\s*!\s*\(', src)
+        if not m:
+            return src
+        params, body = read_limb_convert_macro()
+        end = _balanced_end(src, m.end(), '(', ')')
+        args = [a.strip() for a in split_top(src[m.end():end - 1])]
+        if len(args) != len(params):
+            raise Unsupported('impl_limb_convert!: argument count')
+        for (n, kind), a in zip(params, args):
+            a = re.sub(r'^&\s*', '', a)
+            simple = re.match(r'[\w.]+(\(\))?$', a) or re.match(r'\d+$', a)
+            body = re.sub(r'\$' + n + r'\b', a if (kind == 'ty' or simple) else f'({a})', body)
+        body = re.sub(r'<\s*(\w+)\s*>\s*::', r'\1::', body)
+        j = end
+        while j < len(src) and src[j] in ' \t\n':
+            j += 1
+        if j < len(src) and src[j] == ';':
+            j += 1
+        src = src[:m.start()] + body + src[j:]
+
+
+def impl_blocks(src, self_ty):
+    out = _impl_blocks_g19(src, self_ty)
+    if OPTS.get('limb_convert') and self_ty == 'UnsatInt':
+        out = expand_limb_convert(out)
+        # `fn from_uint<const SAT_LIMBS: usize>(..)`: the second const generic is the unit's `generic2` (an explicit `Nat` argument)
+        out = re.sub(r'(\bfn\s+\w+)\s*<\s*const\s+SAT_LIMBS\s*:\s*usize\s*>', r'\1', out)
+    return out
+
+
+_ex_g19, _is_nat_g19, _run_g19 = Gen.ex, Gen.is_nat, Gen.run
+
+
+def _g19_is_nat(self, e, env):
+    if OPTS.get('limb_convert'):
+        if e[0] == 'bin' and e[1] in ('%', '/'):
+            return self.is_nat(e[2], env) or self.is_nat(e[3], env)
+        if e[0] == 'call' and e[1] == ['min']:
+            return True
+    return _is_nat_g19(self, e, env)
+
+
+def _g19_nat(self, e, env):
+    t, ty = self.ex(e, env, 'nat')
+    if ty != 'nat':
+        raise Unsupported('index arithmetic: ' + str(ty))
+    return t
+
+
+def _g19_ex(self, e, env, want=None):
+    if not OPTS.get('limb_convert'):
+        return _ex_g19(self, e, env, want)
+    k = e[0]
+    if k == 'as' and e[2] == 'usize' and e[1][0] == 'path' and e[1][1] in (['Word', 'BITS'], ['u64', 'BITS'], ['Limb', 'BITS']):
+        return ('64', 'nat') if want in ('nat', None) else _ex_g19(self, e, env, want)     # `Word::BITS as usize` (64-bit configuration)
+    if k == 'bin' and e[1] in ('%', '/') and (want == 'nat' or self.is_nat(e, env)):
+        return f'({_g19_nat(self, e[2], env)} {e[1]} {_g19_nat(self, e[3], env)})', 'nat'
+    if k == 'call' and e[1] == ['min'] and len(e[2]) == 2:
+        # the nested `const fn min(a, b) { if a > b { b } else { a } }` of the macro (its text is checked on every run)
+        a, b = _g19_nat(self, e[2][0], env), _g19_nat(self, e[2][1], env)
+        return f'(if {a} > {b} then {b} else {a})', 'nat'
+    if k == 'ifexpr' and want == 'nat' and len(e) == 4 and not e[2][0] and not e[3][0]:
+        return f'(if {self.cond_prop(e[1], env)} then {_g19_nat(self, e[2][1], env)} else {_g19_nat(self, e[3][1], env)})', 'nat'
+    if k == 'arrayrep':
+        el = e[1][1] if e[1][0] == 'as' and e[1][2] in ('Word', 'u64') else e[1]
+        if el[0] == 'lit' and not el[2]:
+            n, tn = self.ex(e[2], env, 'nat')
+            if tn == 'nat':
+                return f'(List.replicate {atom(n)} {el[1]}#64)', 'words'      # `[0; LIMBS]` / `[0 as Word; SAT_LIMBS]`
+    if k == 'call' and e[1] == ['Self'] and self.self_ty == 'UnsatInt' and len(e[2]) == 1:
+        t, ty = self.ex(e[2][0], env)
+        if ty == 'words':
+            return t, 'unsat'
+    if k == 'call' and e[1] == ['Uint', 'from_words'] and len(e[2]) == 1:
+        t, ty = self.ex(e[2][0], env)
+        if ty == 'words':
+            return t, 'uint'
+    if k == 'method' and not e[3] and e[1] in ('as_words', 'len'):
+        r, tr = self.ex(e[2], env)
+        if e[1] == 'as_words' and tr == 'uint':
+            return r, 'words'
+        if e[1] == 'len' and tr == 'words':
+            return f'{atom(r)}.length', 'nat'
+    return _ex_g19(self, e, env, want)
+
+
+def _g19_run(self, stmts, env, lines, declared=None):
+    if OPTS.get('limb_convert'):
+        out = []
+        for st in stmts:
+            if st[0] == 'assign_idx' and st[1] in env and env[st[1]][1] == 'words':
+                # flush what precedes, then `arr[i] op= e` on a list of plain words
+                _run_g19(self, out, env, lines, declared)
+                out = []
+                _, name, idx, op, rhs = st
+                e = rhs if op == '=' else ('bin', op[:-1], ('index', ('var', name), idx), rhs)
+                ix = _g19_nat(self, idx, env)
+                t, ty = self.ex(e, env, 64)
+                if ty != 64:
+                    raise Unsupported('array element of type ' + str(ty))
+                self.bind(name, f'{atom(env[name][0])}.set {atom(ix)} {atom(t)}', 'words', env, lines)
+            else:
+                out.append(st)
+        return _run_g19(self, out, env, lines, declared)
+    return _run_g19(self, stmts, env, lines, declared)
+
+
+Gen.ex, Gen.is_nat, Gen.run = _g19_ex, _g19_is_nat, _g19_run
+
+
+_emit_loop_up_g19, _loop_up_text_g19 = Gen.emit_loop_up, Gen.loop_up_text
+
+
+def _g19_emit_loop_up(self, cond, body, env, lines):
+    """(G19) an eighth `while` form: `while bits < total { ..; bits += <Nat expression of the body's locals>; }` — the fourth form
+    with a DATA-DEPENDENT step: the same auxiliary definition by recursion on a fuel argument (BOUND - start, which suffices when
+    every step is >= 1: a proof obligation of the bridge), every round re-testing `bits < total`."""
+    i = cond[2][1]
+    if (OPTS.get('limb_convert') and body and body[-1][0] == 'assign' and body[-1][1] == i and body[-1][2] == '+='
+            and body[-1][3][0] != 'lit'):
+        if i in free_vars(cond[3], []):
+            raise Unsupported('loop bound')
+        self.g19_step = body[-1][3]
+        try:
+            r = _emit_loop_up_g19(self, cond, list(body[:-1]) + [('assign', i, '+=', ('lit', 1, None))], env, lines)
+        finally:
+            self.g19_step = None
+        env.pop(i, None)        # the counter after the loop is not tracked
+        return r
+    return _emit_loop_up_g19(self, cond, body, env, lines)
+
+
+def _g19_loop_up_text(self, i, step, bound_e, rest, state, styp, captured, env):
+    if getattr(self, 'g19_step', None) is None:
+        return _loop_up_text_g19(self, i, step, bound_e, rest, state, styp, captured, env)
+    step_e, self.g19_step = self.g19_step, None
+    try:
+        self.nloop += 1
+        aux = f'{self.fname}_loop{self.nloop}'
+        env2 = {}
+        for v in captured:
+            env2[v] = (self.fresh('self_' if v == 'self' else v, env2), env[v][1])
+        for s, ty in zip(state, styp):
+            env2[s] = (self.fresh(s, env2), ty)
+        nvar = self.fresh('n', env2)
+        env2['\0n'] = (nvar, 'nat')
+        env2[i] = (self.fresh(i, env2), 'nat')
+        ivar = env2[i][0]
+        outer, declared = set(env2), set()
+        pat = ', '.join(env2[s][0] for s in state)
+        tup = f'({pat})' if len(state) > 1 else pat
+        capb = ''.join(f' ({env2[v][0]} : {lean_ty(env2[v][1])})' for v in captured)
+        capa = ''.join(f' {env2[v][0]}' for v in captured)
+        bound, tb = self.ex(bound_e, env2, 'nat')
+        if tb != 'nat':
+            raise Unsupported('loop bound of type ' + str(tb))
+        lines2 = []
+        self.run(rest, env2, lines2, declared)
+        if declared & outer:
+            raise Unsupported('loop body shadows an outer variable')
+        if any(env2[s][1] != ty for s, ty in zip(state, styp)):
+            raise Unsupported('loop state changes type')
+        stept = _g19_nat(self, step_e, env2)
+        res = ' × '.join(lean_ty(t) for t in styp)
+        text = (f'@[gen_defs] def {aux}{capb} : Nat → Nat → ' + ' → '.join(lean_ty(t) for t in styp) + f' → {res}\n'
+                + f'  | 0, {ivar}, {pat} => {tup}\n'
+                + f'  | {nvar} + 1, {ivar}, {pat} =>\n    if {ivar} < {bound} then\n      ' + join_lines('\n      ', lines2)
+                + f'\n      {self.ns}.{aux}{capa} {nvar} ({ivar} + {stept}) ' + ' '.join(env2[s][0] for s in state)
+                + f'\n    else {tup}')
+        bound_out, tbo = self.ex(bound_e, env, 'nat')
+        return text, aux, capa, bound_out
+    finally:
+        self.g19_step = step_e
+
+
+Gen.emit_loop_up, Gen.loop_up_text = _g19_emit_loop_up, _g19_loop_up_text
+
+
 DIV_LIMB = 'src/uint/div_limb.rs'
 FILES = [
     # (generated file, imports, units); a unit: rust file, lean namespace, impl type or None, description, options
@@ -3938,6 +4149,10 @@ FILES = [
              generic='UNSAT_LIMBS', unsat=True, inverter=True, private=True,
              desc='impl SafeGcdInverter<SAT_LIMBS, UNSAT_LIMBS>: norm (`&self` is the tuple of the fields modulus, adjuster, inverse)',
              want=['norm']),
+        dict(key='unsat_convert', rel=['src/modular/safegcd.rs'], ns='CB.Gen.SafeGcdLimbs.Convert', self_ty='UnsatInt', generic='LIMBS',
+             unsat=True, limb_convert=True, panic_guards=True, generic2='SAT_LIMBS',
+             desc='impl<const LIMBS: usize> UnsatInt<LIMBS>: from_uint, to_uint (the macro impl_limb_convert! expanded: 64-bit words <-> 62-bit words)',
+             want=['from_uint', 'to_uint']),
     ]),
 ]
 
@@ -4041,6 +4256,7 @@ def main():
             OPTS.update({k: u[k] for k in ('usize_nat',) if u.get(k)})
             OPTS.update({k: u[k] for k in ('usize_param_nat',) if u.get(k)})
             OPTS.update({k: u[k] for k in ('unsat',) if u.get(k)})      # (G18) `UnsatInt<LIMBS>` values
+            OPTS.update({k: u[k] for k in ('limb_convert',) if u.get(k)})      # (G19) `impl_limb_convert!` expanded in the unit's text
             ext['unsat'] = reg.get('unsat')
             if u.get('inverter'):
                 try:
